@@ -177,19 +177,42 @@ Print Assumptions C03_request.
 
 (** C03_time_eq_number. SegmentTimeline $Time$ addressing: the request for the time the audio timeline
     lists for segment [n] (C03_timeline: the frame boundary of the reference start) goes through
-    findRefSegMetaFromTime, finds reference segment [n] and is answered exactly like the request for
-    number [startNr + n] -- provided the reference segment is at least one audio frame long. *)
+    findRefSegMetaFromTime, finds reference segment [n], passes the start-time check of createAudioSegment
+    and is answered exactly like the request for number [startNr + n] -- provided the reference segment
+    is at least one audio frame long. *)
 Theorem C03_time_eq_number : forall vr loopMS, Timeline.wf vr loopMS ->
   forall c F a, 0 < F -> 0 < a ->
   forall tab n now,
   0 <= n -> 0 <= Timeline.startNr c -> Timeline.startNr c + n < two32 ->
   F * Timeline.ts vr <= (Timeline.E vr n - Timeline.S vr n) * a ->
   Timeline.ts vr < two64 -> fb (Timeline.ts vr) F a (Timeline.S vr n) * Timeline.ts vr < two64 ->
+  Timeline.S vr n * a + F * Timeline.ts vr < two64 ->
   Timeline.E vr n < two63 -> Timeline.repDuration vr < two64 ->
   AudioRef.audio_request vr loopMS c F a tab Timeline.ByTime (fb (Timeline.ts vr) F a (Timeline.S vr n)) now =
   AudioRef.audio_request vr loopMS c F a tab Timeline.ByNumber (Timeline.startNr c + n) now.
 Proof. exact AudioRefProofs.audio_request_time_eq_number. Qed.
 Print Assumptions C03_time_eq_number.
+
+(** C03_time_only_starts (since fix 33c7128). No other time is served: if a $Time$ request is answered
+    with a segment, the requested time is the frame boundary of the start of some reference segment,
+    i.e. a time the audio timeline lists. (Such a request is 404 as soon as the reference segment
+    containing the time is available; before/after that it is 425/410 like that reference segment.) *)
+Theorem C03_time_only_starts : forall vr loopMS, Timeline.wf vr loopMS ->
+  forall c F a, 0 < F -> 0 < a ->
+  forall tab t now o,
+  0 <= t -> Timeline.ts vr < two64 ->
+  (t * Timeline.ts vr + Timeline.repDuration vr) * a + F * Timeline.ts vr < two64 ->
+  AudioRef.audio_request vr loopMS c F a tab Timeline.ByTime t now = Timeline.TOk o ->
+  exists n, 0 <= n /\ t = fb (Timeline.ts vr) F a (Timeline.S vr n).
+Proof. exact AudioRefProofs.audio_request_time_only_starts. Qed.
+Print Assumptions C03_time_only_starts.
+
+(** C03_time_off_grid (since fix 33c7128): a time that is no multiple of the frame duration is 404. *)
+Theorem C03_time_off_grid : forall vr loopMS c F a, 0 < F ->
+  forall tab t now, 0 <= t < two64 -> t mod F <> 0 ->
+  AudioRef.audio_request vr loopMS c F a tab Timeline.ByTime t now = Timeline.TNotFound.
+Proof. exact AudioRefProofs.audio_request_time_off_grid. Qed.
+Print Assumptions C03_time_off_grid.
 
 (** C03_short_audio_refuted: when the audio table does not reach the start of the reference segment
     ([rp_reach] of [ref_pre] fails) createAudioSeg returns an error or indexes out of range. *)
